@@ -11,6 +11,7 @@ import (
 	"sync"
 	"time"
 
+	"github.com/beevik/etree"
 	saml2 "github.com/russellhaering/gosaml2"
 	"github.com/russellhaering/gosaml2/uuid"
 
@@ -40,7 +41,7 @@ func init() {
 			"oracle: ID is a legal xs:ID in canonical v4 form, equals the rendering of a contiguous 16-byte window of the bytes served with only version/variant bits forced, windows of different IDs do not overlap, nothing is drawn from elsewhere; distinct = shape hash (mode, builders, interleaving signature)",
 		Directed:   c18Directed,
 		Run:        c18Run,
-		MustHit:    []string{"mode=scheduled-builders", "mode=sequential-history", "mode=masked-bytes-enumeration", "mode=short-reads", "mode=real-entropy", "preemption", "kind=AuthnRequest", "kind=LogoutRequest", "kind=LogoutResponse", "two_instances", "enumerated_block_rendered"},
+		MustHit:    []string{"mode=scheduled-builders", "mode=sequential-history", "mode=masked-bytes-enumeration", "mode=short-reads", "mode=real-entropy", "preemption", "kind=AuthnRequest", "kind=LogoutRequest", "kind=LogoutResponse", "two_instances", "enumerated_block_rendered", "documents_kept_then_serialised"},
 		RandomRuns: map[string]int{"quick": 400, "thorough": 10000},
 		Assumptions: []string{"unpredictability is shown as provenance only: every free bit comes unchanged from crypto/rand.Reader; the quality of the OS generator is assumed",
 			"entropy errors are not injected (since Go 1.24 a failing crypto/rand.Reader is fatal by design); only short reads are a legal fault on that seam",
@@ -394,9 +395,35 @@ func c18Run(r *core.Run) {
 		ent.Install()
 		defer ent.Uninstall()
 		var all []builtID
+		type keptDoc struct {
+			doc     *etree.Document
+			builder string
+		}
+		var kept []keptDoc
 		for i := 0; i < n; i++ {
 			b := c18Builders[(p2+i*7+i/5)%len(c18Builders)]
 			kindProbe(b)
+			if strings.HasSuffix(b, "DocumentNoSig") && i%2 == 0 {
+				// the document is kept while later messages are built and serialised only at the end
+				var d *etree.Document
+				var err error
+				sp := sps[(i/3)%2]
+				switch {
+				case strings.Contains(b, "AuthRequest"):
+					d, err = sp.BuildAuthRequestDocumentNoSig()
+				case strings.Contains(b, "LogoutRequest"):
+					d, err = sp.BuildLogoutRequestDocumentNoSig("alice", "s1")
+				default:
+					d, err = sp.BuildLogoutResponseDocumentNoSig(world.StatusOK, "_req1")
+				}
+				if err != nil {
+					ctx["err"] = err.Error()
+					r.Fail("produce", "C18/build-failed", ctx)
+					return
+				}
+				kept = append(kept, keptDoc{d, b + "(kept)"})
+				continue
+			}
 			id, err := c18Build(sps[(i/3)%2], b)
 			if err != nil {
 				ctx["err"] = err.Error()
@@ -405,6 +432,16 @@ func c18Run(r *core.Run) {
 			}
 			all = append(all, builtID{0, b, id})
 		}
+		for _, k := range kept {
+			x, err := k.doc.WriteToString()
+			m := idAttrRe.FindStringSubmatch(x)
+			if err != nil || m == nil {
+				r.Fail("produce", "C18/build-failed", ctx)
+				return
+			}
+			all = append(all, builtID{0, k.builder, m[1]})
+		}
+		r.Probe("documents_kept_then_serialised")
 		r.Probe("two_instances")
 		r.Steps += n
 		r.Shape(fmt.Sprintf("seq.%d.%d", n, p2%len(c18Builders)))
